@@ -335,7 +335,10 @@ check_explicit_and_linear(Ctx& X)
     for (std::size_t i = 0; i < lin.size(); ++i)
       lin[i] = a * Ax[i] + b * Ax2[i];
     std::size_t w = 0;
-    const double sc = std::max(std::max(max_abs(lin), std::fabs(a) * max_abs(Ax) + std::fabs(b) * max_abs(Ax2)), 1e-30);
+    // cancellation-free magnitude as in (1): with few bins both projections can be small by cancellation (mixed-sign images)
+    const double sc = std::max(std::max(max_abs(lin), std::fabs(a) * std::max(max_abs(Ax), abs_forward_max(X.P, x))
+                                                          + std::fabs(b) * std::max(max_abs(Ax2), abs_forward_max(X.P, x2))),
+                               1e-30);
     const double d = max_diff(Axc, lin, &w);
     stats().maxi("(3) max |A(ax+bx') - aAx - bAx'| / scale", d / sc);
     VF_CHECK(d <= TOL_LINEAR * sc, "(3) forward projection not linear at ", show_bin(X.P.bins[w]), ": A(ax+bx')=", Axc[w], " aAx+bAx'=", lin[w], " scale ", sc, " a=", a, " b=", b, " ",
